@@ -142,6 +142,13 @@ Theorem C03_multi_hub_charged_at_construction : forall st j s u l, nth_error st 
 Proof. exact multi_hub_charged_at_construction. Qed.
 Print Assumptions C03_multi_hub_charged_at_construction.
 
+(* filter(None): keep the truthy items *)
+Theorem C03_filter_none_keeps_truthy : forall st i l, nth_error st i = Some (EStream (fin l)) ->
+  step st (OFilter i PTruthy) =
+  (set_nth i (EStream (fin (filter (fun x => negb (x =? 0)) l))) st, OSelf).
+Proof. exact filter_none_keeps_truthy. Qed.
+Print Assumptions C03_filter_none_keeps_truthy.
+
 (* error paths: a refused call changes nothing (hub uses, remaining sequences of every object) *)
 Theorem C03_refused_call_changes_nothing : forall st e, step st (ORefused e) = (st, ORaise e).
 Proof. exact refused_call_changes_nothing. Qed.
